@@ -5684,6 +5684,9 @@ class PyCdlib:
         if self.eltorito_boot_catalog.initial_entry.sector_count != 4:
             raise pycdlibexception.PyCdlibInvalidInput('El Torito Boot Catalog sector count must be 4 (was actually 0x%x)' % (self.eltorito_boot_catalog.initial_entry.sector_count))
 
+        if part_entry < 1 or part_entry > 4:
+            raise pycdlibexception.PyCdlibInvalidInput('The partition entry must be between 1 and 4, inclusive')
+
         if efi is not None:
             if not efi and mac:
                 raise pycdlibexception.PyCdlibInvalidInput('If mac is True, efi must also be True')
